@@ -601,7 +601,8 @@ func isInternalIP(addr string) bool {
 		"172.16.0.0/12",  // RFC1918
 		"192.168.0.0/16", // RFC1918
 		"169.254.0.0/16", // RFC3927 link-local
-		"::1/7",          // IPv6 loopback
+		"::1/128",        // IPv6 loopback
+		"::/128",         // IPv6 unspecified address
 		"fe80::/10",      // IPv6 link-local
 		"fc00::/7",       // IPv6 unique local addr
 	}
